@@ -119,7 +119,7 @@ def write_replay(prop, payload):
 
 TRUSTED_BASE = [
     'Lean 4.33.0 kernel; axioms of every listed theorem ⊆ {propext, Classical.choice, Quot.sound} (audited each run)',
-    'harness/translate.py (Python AST → lean/CGV/Gen: tables + leaf functions, regenerated each run)',
+    'harness/translate.py (Python AST → lean/CGV/Gen: tables + leaf functions, regenerated each run; a piece the translator cannot read falls back to harness/reference/<section>.lean and is tied by the correspondence of harness/gen_tie.py instead)',
     'correspondence harness: generators, canonical dumps, line protocol, compiled Lean driver',
     'modelled external semantics: networkx graph behaviour as observed through node/edge iteration order, pysmiles valence table (evaluated each run)',
 ]
@@ -149,7 +149,7 @@ def main(argv):
         proof_problems.append(f'translator: {tr["error"]}')
 
     # 2. prove
-    targets = list(mod.LEAN_TARGETS) + [f'CGV.Audit.{prop}', 'driver']
+    targets = list(mod.LEAN_TARGETS) + [f'CGV.Audit.{prop}', 'CGV.GenDeps', 'driver']
     ok, out, build_s = lib.lake_build(targets)
     driver_ok = os.path.exists(os.path.join(lib.LEAN, '.lake', 'build', 'bin', 'driver'))
     if not ok:
@@ -172,6 +172,24 @@ def main(argv):
                 discharged.append(th)
         if not a_ok:
             proof_problems.append('audit file failed to elaborate')
+    # which generated pieces do this property's theorems rest on?  (a piece the translator could not read falls back
+    # to its reference model; it then concerns exactly the properties whose theorems depend on it, and its tie to
+    # the code is the correspondence run by gen_tie — DESIGN §0.2)
+    fallbacks = tr.get('fallbacks') or {}
+    sections = tr.get('sections') or {}
+    deps = lib.gen_deps(prop, theorems) if ok else None
+    if deps is None:
+        relevant = set(sections)
+    else:
+        used = set().union(*deps.values()) if deps else set()
+        relevant = {sec for sec, names in sections.items() if any(n in used for n in names)}
+    for sec, info in sorted(fallbacks.items()):
+        if sec in relevant:
+            notes.append(f'generated section {sec}: translator fell back to the reference model ({info["error"][:120]}); '
+                         f'tied to the code by correspondence (gen_tie)')
+        else:
+            notes.append(f'generated section {sec}: translator fell back to the reference model; none of this property\'s '
+                         f'theorems depends on it')
     hits = lib.scan_forbidden()
     if hits:
         proof_problems.append('forbidden construct: ' + '; '.join(hits[:3]))
@@ -205,6 +223,8 @@ def main(argv):
                     with open(os.path.join(cdir, fn)) as fh:
                         mod.corpus_case(ctx, json.load(fh))
         mod.run(ctx)
+        import gen_tie
+        gen_tie.run(ctx, set(fallbacks), relevant)
     except Exception:    # noqa: BLE001
         traceback.print_exc()
         return 2
@@ -289,6 +309,8 @@ def main(argv):
             'oracle_failures': len(ctx.failures),
             'known_findings_seen': sorted(known_hit),
             'proof_problems': proof_problems,
+            'generated_sections_used': sorted(relevant),
+            'generated_sections_in_fallback': sorted(fallbacks),
             'source_hashes': hashes,
             'notes': notes,
             'build_s': round(build_s, 2),
